@@ -528,7 +528,7 @@ type Config struct {
 
 // Stats of a run.
 type Stats struct {
-	Children, Deaths, Timeouts, Skipped, FlakyDeaths int
+	Children, Deaths, Timeouts, Skipped, FlakyDeaths, Unattributed int
 }
 
 // Run executes every input of the corpus against the target in child processes.
@@ -642,6 +642,12 @@ func Run(cfg Config) ([]Result, Stats, error) {
 			continue
 		}
 		single = false
+		if site == nil && !timedOut {
+			// died twice, and neither dump shows the code under test: the harness cannot tell the input
+			// from the environment (thread/process limits, kernel OOM killer): decided nothing for it
+			res.Outcome = "death_unattributed"
+			st.Unattributed++
+		}
 		results = append(results, res)
 		from, fromVar = next(li, lv)
 		if cfg.MaxDeaths > 0 && st.Deaths+st.Timeouts >= cfg.MaxDeaths && from < n {
@@ -749,6 +755,9 @@ func Drive(r Reporter, cfg Config, class string, nontrivial func(*Input) bool) e
 	r.Count(cfg.Target+"_child_deaths_not_reproduced_alone", int64(st.FlakyDeaths))
 	if st.Timeouts > 0 {
 		r.Inconclusive(fmt.Sprintf("%s: %d crashbox children hit the %s watchdog", cfg.Target, st.Timeouts, cfg.Timeout))
+	}
+	if st.Unattributed > 0 {
+		r.Inconclusive(fmt.Sprintf("%s: %d inputs killed the child twice without a frame of the code under test in the crash dump (see scratch dir); not attributed", cfg.Target, st.Unattributed))
 	}
 	if st.Skipped > 0 {
 		r.Inconclusive(fmt.Sprintf("%s: %d inputs not run after %d child deaths", cfg.Target, st.Skipped, st.Deaths))
